@@ -945,6 +945,28 @@ func (x *Exec) stub(st *State, f *Frame, in *ssa.Call, fn *ssa.Function, name st
 		o := x.newObj(st, "hexenc", "Fresh", "hexstring", slots)
 		x.ret(f, in, S{obj: o.id, ln: len(slots), cp: len(slots), esz: 1, isStr: true})
 		return true
+	case "encoding/hex.Encode":
+		// hex.Encode(dst, src): dst[:2*len(src)] receives the digits (opaque), the buffer is remembered so that string(dst) is the
+		// same abstract hex string as EncodeToString(src); panics if dst is too short, like the real function
+		dst, src := args[0].(S), args[1].(S)
+		if dst.ln < 2*src.ln {
+			x.pathPanic(st, "index out of range (hex.Encode into a short buffer)")
+		}
+		var bytesIn []Val
+		if src.ln > 0 {
+			bytesIn = append(bytesIn, x.obj(st, src.obj).slots[src.off:src.off+src.ln]...)
+		}
+		for i := 0; i < 2*src.ln; i++ {
+			x.writeSlot(st, dst.obj, dst.off+i, W{d.App("hexdigit", 8, []*Node{x.word(bytesIn[i/2]), d.ConstI(8, int64(i%2))})})
+		}
+		if st.hexbuf == nil {
+			st.hexbuf = map[int][]Val{}
+		}
+		if dst.off == 0 {
+			st.hexbuf[dst.obj] = bytesIn
+		}
+		x.ret(f, in, W{d.ConstI(64, int64(2*src.ln))})
+		return true
 	case "encoding/hex.DecodeString":
 		s := args[0].(S)
 		if s.obj != 0 && x.obj(st, s.obj).typ == "hexstring" {
